@@ -1,6 +1,6 @@
 (* C03 correspondence: observed behaviour of pkg/proto/udp (+ msg.WriteMsg/ReadMsg, and the whole
    frps/frpc tunnel) against Model/Udp.v, and the property monitors on observed traces. *)
-From FRP Require Export Corr.Common Model.Udp Model.UdpSched Proofs.RegistryCheck.
+From FRP Require Export Corr.Common Model.Udp Model.UdpSched Model.UdpLoops Proofs.RegistryCheck.
 Open Scope Z_scope.
 
 Definition udp_registry := registry type_consts type_map.
@@ -40,7 +40,13 @@ Inductive case :=
    d1 is written and answered; the loop is held between mu.Unlock and Write for d2 while the
    30 s read deadline of the socket fires (the reader deletes the entry and closes the socket);
    released; then d3.  Observed: the backend log (source-port index, payload) *)
-| CRace (bufsize : Z) (user : uaddr) (d1 d2 d3 : bytes) (backend : list (Z * bytes)).
+| CRace (bufsize : Z) (user : uaddr) (d1 d2 d3 : bytes) (backend : list (Z * bytes))
+(* the reply goroutine of the real ForwardUserConn: replies in readCh order as (user index, did WriteToUDP
+   have a destination the OS accepts), and for each whether it reached its user (observed) *)
+| CReplyLoop (replies : list (Z * bool)) (reached : list bool)
+(* message types (type bytes) frps wrote on a scripted udp work connection after it was sent a Ping and
+   [ndatagrams] user datagrams arrived at the public port *)
+| CAlphabet (ndatagrams : Z) (types : list Z).
 
 Definition opt_uaddr_eqb (a b : option uaddr) : bool :=
   match a, b with
@@ -110,7 +116,7 @@ Definition C03_holds (nusers : Z) (ordered : bool) (sends : list (Z * Z * bytes)
 (** * the model on the light-load schedule of a CFwd case *)
 
 Definition pump_fwd : list uev := [ESrvSend; ECliRecv; ECliPump true].
-Definition pump_rev : list uev := [ECliSend; ESrvRecv; ESrvDeliver].
+Definition pump_rev : list uev := [ECliSend; ESrvRecv; ESrvDeliver true].
 
 
 (* one burst: all datagrams arrive at the public socket, the pipeline drains, the backend
@@ -197,6 +203,13 @@ Definition race_lost (c : case) : bool :=
       zb_list_eqb (flat_map (fun o => match o with GWrote s _ d => [(Z.of_N s, d)] | _ => [] end) tr) backend
       && existsb (fun o => match o with GWriteErr _ _ d => bytes_eqb d d2 | _ => false end) tr
   | _ => false
+  end.
+
+Fixpoint list_bool_eqb (a b : list bool) : bool :=
+  match a, b with
+  | [], [] => true
+  | x :: a', y :: b' => Bool.eqb x y && list_bool_eqb a' b'
+  | _, _ => false
   end.
 
 (* 0 = agrees; otherwise a reason code *)
@@ -291,6 +304,11 @@ Definition check_case (c : case) : Z :=
           else 0
       end
   | CCap caps => if forallb (fun n => n =? uqcap) caps && (4 <=? Z.of_nat (length caps)) then 0 else 45
+  | CReplyLoop replies reached =>
+      let model := map (fun o => match o with RLDelivered _ => true | _ => false end) (rl_run false true replies) in
+      if list_bool_eqb model reached then 0 else 61
+  | CAlphabet n types =>
+      if forallb (fun t => t =? Z_of_byte udp_type_byte) types && (Z.of_nat (length types) =? n) then 0 else 62
   | CRace bufsize user d1 d2 d3 backend =>
       if race_lost (CRace bufsize user d1 d2 d3 backend) then 0
       else (* the loss did not happen (no gate in this build, or repaired code): then all three arrive once *)
@@ -304,6 +322,10 @@ Definition is_dec_err (c : case) : bool := match c with CDec _ false _ => true |
 Definition is_fwd (c : case) : bool := match c with CFwd _ _ _ _ _ => true | _ => false end.
 Definition is_idle (c : case) : bool := match c with CIdle _ _ _ _ _ _ _ => true | _ => false end.
 Definition is_full (c : case) : bool := match c with CFull _ _ _ _ _ _ => true | _ => false end.
+Definition is_replyloop (c : case) : bool := match c with CReplyLoop _ _ => true | _ => false end.
+Definition replyloop_failed_writes (c : case) : Z :=
+  match c with CReplyLoop r _ => count_if (fun x : Z * bool => negb (snd x)) r | _ => 0 end.
+Definition is_alphabet (c : case) : bool := match c with CAlphabet _ _ => true | _ => false end.
 Definition is_race (c : case) : bool := match c with CRace _ _ _ _ _ _ => true | _ => false end.
 Definition is_cap (c : case) : bool := match c with CCap _ => true | _ => false end.
 Definition is_sys (c : case) : bool := match c with CSys _ _ _ _ _ => true | _ => false end.
